@@ -487,8 +487,16 @@ def feasible(events):
   write to its names in between (the `if deadline: ... if deadline:` shape)."""
   facts = {}
   consts = {}     # local name -> truth value of the constant last assigned to it
+  alias = {}      # local name -> the local it was copied from (x = y), while neither is rebound
   for e in events:
+    if e.kind in ('stmt', 'for_iter', 'with_enter'):
+      for w in written_names(e.node):
+        alias.pop(w, None)
+        for k in [k for k, v in alias.items() if v == w]:
+          del alias[k]
     if e.kind == 'stmt' and isinstance(e.node, ast.Assign) and len(e.node.targets) == 1 and isinstance(e.node.targets[0], ast.Name):
+      if isinstance(e.node.value, ast.Name) and e.node.value.id != e.node.targets[0].id:
+        alias[e.node.targets[0].id] = alias.get(e.node.value.id, e.node.value.id)
       if isinstance(e.node.value, ast.Constant):
         consts[e.node.targets[0].id] = bool(e.node.value.value)
       elif isinstance(e.node.value, ast.Name) and e.node.value.id in consts:
@@ -508,10 +516,17 @@ def feasible(events):
     if e.kind == 'cond':
       if not _is_attr_pure(e.node):
         continue
-      key = unparse(e.node)
+      node_ = e.node
+      if alias and any(isinstance(x, ast.Name) and x.id in alias for x in ast.walk(node_)):
+        import copy as _copy
+        node_ = _copy.deepcopy(node_)
+        for x in ast.walk(node_):
+          if isinstance(x, ast.Name) and x.id in alias:
+            x.id = alias[x.id]
+      key = unparse(node_)
       if key in facts and facts[key][0] != e.info:
         return False
-      facts[key] = (e.info, _names_in(e.node), not _is_local_pure(e.node))
+      facts[key] = (e.info, _names_in(node_), not _is_local_pure(e.node))
     elif e.kind in ('stmt', 'for_iter', 'with_enter'):
       w = written_names(e.node)
       if w:
